@@ -1,1 +1,4 @@
-import JdModel
+import JdProps.C03
+import JdProps.C04
+import JdProps.C06
+import JdProps.C13
